@@ -98,6 +98,48 @@ def pred_c05(prog, ob):
     return None
 
 
+def pred_c05_susp(prog, ob):
+    """while a conditional auxiliary of frame F of a running framer is entered, the framer's active frames are
+    exactly the head of F (of the highest such F): the frames below stay suspended, whatever transitions were
+    attempted meanwhile"""
+    orc = ob.get("oracle", [])
+    ix = kernel.Index(prog)
+    names = {ix.tid[fm["name"]]: fm for fm in prog["framers"]}
+    ev, started = [], {}
+    for i, e in enumerate(orc):
+        if e[0] == "enterAll":
+            ev.append((e[5], i, "in", e[2]))
+        elif e[0] == "exitAll":
+            ev.append((e[4], i, "out", e[2]))
+        elif e[0] == "suspend" and len(e) > 11:
+            for j in range(i + 1, e[11]):
+                if orc[j][0] == "enterAll" and orc[j][2] == e[4]:
+                    started[j] = (e[2], e[3])
+    ev.sort()
+    entered, k = {}, 0
+    for idx, e in enumerate(ob["trace"]):
+        while k < len(ev) and ev[k][0] <= idx:
+            _pos, oi, kind, name = ev[k]
+            k += 1
+            if kind == "in" and oi in started:
+                entered[name] = started[oi]
+            else:
+                entered.pop(name, None)
+        if e[0] != "send" or e[4] not in RUNNING:
+            continue
+        fm = names[e[2]]
+        mine = [main for aux, (fmn, main) in entered.items() if fmn == fm["name"]]
+        if not mine:
+            continue
+        local = {j: fr["name"] for j, fr in enumerate(fm["frames"])}
+        anames = [local[a] for a in e[5]]
+        heads = sorted((head_of(fm, m) for m in mine), key=len)
+        if anames != heads[0]:
+            return ("not-truncated-while-suspended", "tick %d: framer %s has active frames %r while the conditional "
+                    "auxiliary of frame %s is running (expected the head %r)" % (e[1], fm["name"], anames, heads[0][-1], heads[0]))
+    return None
+
+
 def enter_exit_events(prog, ob):
     """[(tick, framer, frame, 'enter'|'exit')] from the first recorder of each frame's enacts / exacts"""
     tab = tag_table(prog)
@@ -130,7 +172,8 @@ def pred_c06(prog, ob, crashed=False):
     state = {}
     suspended = {}      # framer -> True when its last logged outline was shorter than its entered frames
     tab = tag_table(prog)
-    for e in ob["trace"]:
+    fms0 = {fm["name"]: fm for fm in prog["framers"]}
+    for ti, e in enumerate(ob["trace"]):
         if e[0] == "send":
             fmn = [n for n, t in tid_of.items() if t == e[2]][0]
             entered = [k for k, v in state.items() if v == "in" and k[0] == fmn]
@@ -150,13 +193,44 @@ def pred_c06(prog, ob, crashed=False):
                             "tick %d: frame %s.%s entered twice without exit (frames suspended under a conditional "
                             "aux were not exited)" % (tk, fmn, frn))
                 if _aux_uses(prog, fmn) > 1:
+                    # the known defect (two frames of ONE attempt both pass the ownership test because it runs
+                    # before any of them is entered) leaves the auxiliary unowned at the moment of the attempt;
+                    # an auxiliary that already had an owner at that moment is a different violation
+                    owner = None
+                    for o in ob.get("oracle", []):
+                        snap, pos = None, None
+                        if o[0] in ("transit", "suspend"):
+                            snap, pos = o[5], o[7]
+                        elif o[0] == "ctl":
+                            snap, pos = o[5], o[6]
+                        elif o[0] == "enterAll" and o[3]:
+                            snap, pos = o[4], o[5]
+                        if snap is not None and pos <= ti and fmn in snap:
+                            owner = snap[fmn][2]
+                    if owner:
+                        return ("aux-entered-while-owned", "tick %d: frame %s.%s of shared auxiliary entered again while "
+                                "the auxiliary was owned by frame %s of %s at the moment of the attempt"
+                                % (tk, fmn, frn, owner[1], owner[0]))
                     return ("aux-claimed-twice", "tick %d: frame %s.%s of shared auxiliary entered twice without exit"
                             % (tk, fmn, frn))
                 return ("enter-twice", "tick %d: frame %s.%s entered twice without exit" % (tk, fmn, frn))
+            over = fr_by_name(fms0[fmn])[frn].get("over")
+            if over and state.get((fmn, over), "out") != "in":
+                return ("enter-before-over", "tick %d: frame %s.%s was entered while its over frame %s is not entered "
+                        "(entries must run top-down)" % (tk, fmn, frn, over))
             state[k] = "in"
         else:
             if cur != "in":
                 return ("exit-without-enter", "tick %d: frame %s.%s exited without being entered" % (tk, fmn, frn))
+            below = [g for (f2, g), v in state.items() if f2 == fmn and v == "in" and g != frn
+                     and frn in head_of(fms0[fmn], g)[:-1]]
+            if below:
+                if any(v for v in suspended.values()):
+                    return ("suspended-frames-not-exited",
+                            "tick %d: frame %s.%s exited while %r below it are still entered (frames suspended under a "
+                            "conditional aux are not exited)" % (tk, fmn, frn, below))
+                return ("exit-before-under", "tick %d: frame %s.%s was exited while the frames %r below it are still "
+                        "entered (exits must run bottom-up)" % (tk, fmn, frn, below))
             state[k] = "out"
     # re-exit actions run bottom-up, re-enter actions top-down, over the shared ancestors of a transition
     fms = {fm["name"]: fm for fm in prog["framers"]}
@@ -468,6 +542,23 @@ def pred_c08(prog, ob):
     return None
 
 
+def pred_c08_permitted(prog, ob):
+    """a transition whose conditions hold and whose target passes the independent entry check at that moment
+    (guards, auxiliary ownership with the exits of this very transition, auxiliaries' first-frame conditions) is
+    taken: e.g. `timeout T` / `repeat N` leave at the first evaluation at which the clock has reached the goal"""
+    fms = _fms(prog)
+    for e in ob.get("oracle", []):
+        if e[0] == "transit" and e[8] is not None and not e[9] and e[6]:
+            _, tk, fm, near, far, S, nk, p0, p1, taken, aft = e[:11]
+            actives = S[fm][1]
+            exits, enters, _re = exen(actives, far, outline_of(fms[fm], far))
+            if enters and all(guard_ok(prog, S, fm, f, exits) is None for f in enters):
+                return ("permitted-transition-refused", "tick %d: transition %s -> %s of %s was refused although its "
+                        "conditions held and every frame to enter %r passed the entry check (exits %r)"
+                        % (tk, near, far, fm, enters, exits))
+    return None
+
+
 def pred_c04_start(prog, ob):
     """a start (ready) of a stopped/readied tasker yields started (readied) iff the first-frame conditions,
     evaluated independently when the control arrives, hold; otherwise the tasker is left stopped"""
@@ -736,7 +827,7 @@ def pred_c10(prog, ob):
 PREDS = {"C04": pred_c04, "C03": pred_c03, "C05": pred_c05, "C06": pred_c06, "C09": pred_c09, "C11": pred_c11,
          "C08": pred_c08, "C04s": pred_c04_start, "C09d": pred_c09_done, "C10": pred_c10,
          "C09o": pred_c09_order, "C11c": pred_c11_const, "C03e": pred_c03_end,
-         "C02r": pred_c02_replay}
+         "C02r": pred_c02_replay, "C05s": pred_c05_susp, "C08p": pred_c08_permitted}
 
 
 def kernel_check(ctx, pid, runs, preds, rule, extra_assumptions=(), corpus=(), extra_checks=()):
